@@ -9,6 +9,9 @@ mod reference;
 
 use engine::{Ctx, Tier};
 
+#[global_allocator]
+static ALLOC: engine::resmon::Counting = engine::resmon::Counting;
+
 fn usage() -> ! {
     eprintln!("usage: rpgp-mc <C01..C19> [--tier quick|thorough] [--replay <file>]");
     std::process::exit(2);
@@ -25,6 +28,7 @@ fn main() {
         _ => Tier::Quick,
     };
     let mut replay: Option<String> = None;
+    let mut worker: Option<(String, u64, u64)> = None;
     let mut i = 1;
     while i < args.len() {
         match args[i].as_str() {
@@ -35,6 +39,13 @@ fn main() {
                     Some("thorough") => Tier::Thorough,
                     _ => usage(),
                 };
+            }
+            "--worker" => {
+                let sp = args.get(i + 1).cloned().unwrap_or_else(|| usage());
+                let a = args.get(i + 2).and_then(|s| s.parse().ok()).unwrap_or_else(|| usage());
+                let b = args.get(i + 3).and_then(|s| s.parse().ok()).unwrap_or_else(|| usage());
+                worker = Some((sp, a, b));
+                i += 3;
             }
             "--replay" => {
                 i += 1;
@@ -57,6 +68,23 @@ fn main() {
         eprintln!("unknown property {id}");
         std::process::exit(2);
     };
+
+    if let Some((space, a, b)) = worker {
+        let Some(w) = prop.worker else {
+            eprintln!("property {id} has no worker mode");
+            std::process::exit(2);
+        };
+        match w(tier, &space, a, b) {
+            Some(v) => {
+                println!("{v}");
+                std::process::exit(0);
+            }
+            None => {
+                eprintln!("unknown worker space {space}");
+                std::process::exit(2);
+            }
+        }
+    }
 
     if let Some(path) = replay {
         let s = std::fs::read_to_string(&path).unwrap_or_else(|e| {
